@@ -770,6 +770,8 @@ func (em *emitter) emitSelect(selectNode *ast.Select) {
 	for i, cas := range selectNode.Cases {
 		// Make the previous 'goto' point here.
 		em.fb.setLabelAddr(casesLabel[i])
+		// The variables declared in the case are local to the case.
+		em.fb.enterScope()
 		// Emit an assignment if it is a receive case with an assignment.
 		if assignment, isAssignment := cas.Comm.(*ast.Assignment); isAssignment {
 			receiveExpr := assignment.Rhs[0].(*ast.UnaryOperator)
@@ -801,6 +803,7 @@ func (em *emitter) emitSelect(selectNode *ast.Select) {
 		if i < len(selectNode.Cases)-1 {
 			em.fb.emitGoto(casesEnd)
 		}
+		em.fb.exitScope()
 	}
 	em.fb.setLabelAddr(casesEnd)
 
